@@ -233,3 +233,35 @@ Proof.
   rewrite <- (rows_keys' _ 0). apply (Permutation_in _ (Permutation_sym (Permutation_map r_key P))).
   rewrite map_app. apply in_or_app. left. cbn. now left.
 Qed.
+
+(* ---- list-level forms ---- *)
+Lemma filter_neq_remove n l : filter (fun c => negb (Nat.eqb c n)) l = remove Nat.eq_dec n l.
+Proof.
+  induction l as [|x l IH]; [reflexivity|]. cbn [filter remove]. destruct (Nat.eq_dec n x) as [->|Ne].
+  - rewrite Nat.eqb_refl. cbn [negb]. exact IH.
+  - replace (Nat.eqb x n) with false by (symmetry; apply Nat.eqb_neq; congruence). cbn [negb]. now rewrite IH.
+Qed.
+
+Theorem get_clones_as_remove t n d : did_of n (forest_of t) = Some d ->
+  lk_get_clones t n false = remove Nat.eq_dec n (lk_find_all_did t d) /\
+  lk_get_clones t n true = lk_find_all_did t d /\
+  lk_is_clone t n = Nat.ltb 1 (length (lk_find_all_did t d)).
+Proof.
+  intros E. unfold lk_get_clones, lk_is_clone, lk_find_all_did. rewrite E. cbn [orb]. refine (conj _ (conj _ eq_refl)).
+  - apply filter_neq_remove.
+  - apply filter_all_true. reflexivity.
+Qed.
+
+(* tree[key] for a present int/str key: the unique node, or the ambiguity error when there are several *)
+Theorem getitem_did_class t e fb : WF t -> idx_has e (idx t) = true ->
+  (exists n, lk_getitem t (LDid e fb) = Ok [n] /\ nodes_with (forest_of t) e = [n]) \/
+  (lk_getitem t (LDid e fb) = Err EAmbiguous /\ 2 <= length (nodes_with (forest_of t) e)).
+Proof.
+  intros H Hh. assert (P := find_all_exact t H e). assert (L := Permutation_length P).
+  unfold lk_getitem. cbn [lk_candidates]. rewrite Hh.
+  destruct (lk_find_all_did t e) as [|m [|m2 l]] eqn:E.
+  - exfalso. apply (has_did_exact t H e) in Hh. destruct Hh as (n & Hn).
+    apply (find_all_live t H n e) in Hn. now rewrite E in Hn.
+  - left. exists m. split; [reflexivity|]. now apply Permutation_length_1_inv in P.
+  - right. split; [reflexivity|]. rewrite <- L. cbn. lia.
+Qed.
